@@ -22,5 +22,6 @@ Definition pm_commentBefore (commentOffset nextOffset : Z) (impliedSemi commentN
    Config.fprint: if err = p.printNode(node); err != nil { / return / }
    Config.fprint: p.impliedSemi = false
    Config.fprint: p.flush(token.Position{Offset: infinity, Line: infinity}, token.EOF)
-   writeComment is called from intersperseComments only *)
+   *)
 Definition pm_audited_sites : Z := 12%Z.
+Definition pm_unmatched_sites : Z := 0%Z.
